@@ -23,18 +23,19 @@ BA = "hta.analyzers.breakdown_analysis"
 STATS = ("sum", "max", "min", "mean", "std")
 
 
-def leaves(t):
+def leaves(t, melt=False):
+    """the pieces of a column of a concatenated frame; with melt=True also one piece per value column of a melted frame"""
     if isinstance(t, tuple) and t and t[0] == "ccol":
         out = []
         for x in t[2]:
-            out.extend(leaves(x))
+            out.extend(leaves(x, melt))
         return out
     # a column of a melted frame: one leaf per melted value column (melt stacks one copy of the rows per value column)
-    mp = T.melt_pieces(t) if isinstance(t, tuple) else None
+    mp = T.melt_pieces(t) if melt and isinstance(t, tuple) else None
     if mp is not None and len(mp) >= 2:
         out = []
         for _lab, x in mp:
-            out.extend(leaves(x))
+            out.extend(leaves(x, melt))
         return out
     return [t]
 
